@@ -89,10 +89,24 @@ impl Op {
 
 #[derive(Clone, Debug)]
 pub struct History { pub kind: String, pub keys: Vec<KeySpec>, pub ops: Vec<Op> }
+/// named key tables: "@num:N" = k00001, k00004, ... (N keys), "@k2:N" = k00 .. k(N-1)
+pub fn named_keys(name: &str, n: usize) -> Option<Vec<KeySpec>> {
+    match name {
+        "num" => Some((0..n).map(|i| KeySpec::plain(format!("k{:05}", i * 3 + 1).as_bytes())).collect()),
+        "k2" => Some((0..n).map(|i| KeySpec::plain(format!("k{:02}", i).as_bytes())).collect()),
+        _ => None,
+    }
+}
+fn keys_text(keys: &[KeySpec]) -> String {
+    for name in ["num", "k2"] {
+        if let Some(k) = named_keys(name, keys.len()) { if !keys.is_empty() && k == keys { return format!("@{}:{}", name, keys.len()); } }
+    }
+    keys.iter().map(|k| k.text()).collect::<Vec<_>>().join(",")
+}
 impl History {
     pub fn line(&self) -> String {
         format!("h kind={} keys={} ops={}", self.kind,
-            self.keys.iter().map(|k| k.text()).collect::<Vec<_>>().join(","),
+            keys_text(&self.keys),
             self.ops.iter().map(|o| o.text()).collect::<Vec<_>>().join(";"))
     }
     pub fn parse(l: &str) -> Option<History> {
@@ -101,7 +115,9 @@ impl History {
         let r = l.strip_prefix("h kind=")?;
         let (kind, r) = r.split_once(" keys=")?;
         let (ks, os) = r.split_once(" ops=")?;
-        let keys: Vec<KeySpec> = if ks.is_empty() { vec![] } else { ks.split(',').map(KeySpec::parse).collect::<Option<_>>()? };
+        let keys: Vec<KeySpec> = if ks.is_empty() { vec![] }
+            else if let Some(r) = ks.strip_prefix('@') { let (name, n) = r.split_once(':')?; named_keys(name, n.parse().ok()?)? }
+            else { ks.split(',').map(KeySpec::parse).collect::<Option<_>>()? };
         let ops: Vec<Op> = if os.is_empty() { vec![] } else { os.split(';').map(Op::parse).collect::<Option<_>>()? };
         for o in &ops {
             let k = match o { Op::Ins(k, _) | Op::Iine(k, _) | Op::App(k, _) | Op::Upd(k, _) | Op::Del(k) | Op::Get(k) | Op::Seek(k, _) => *k, _ => 0 };
